@@ -145,6 +145,8 @@ var c07Bases = [][]string{
 	{"a", ":=", "{", "\"k\"", ":", "{", "\"j\"", ":", "1", "}", ",", "\"l\"", ":", "[", "{", "\"m\"", ":", "2", "}", "]", "}"},
 	{"f", "(", "{", "\"k\"", ":", "1", "}", ",", "[", "{", "\"j\"", ":", "2", "}", "]", ")"},
 	{"sink", "s", "kindmatch", "[", "\"a\"", "]", ",", "statematch", "{", "\"a\"", ":", "{", "\"b\"", ":", "1", "}", "}", ",", "{", "a", "}"},
+	// several top-level statements (whole-program checks have to cover every one of them)
+	{"a", ":=", "{", "\"k\"", ":", "1", "}", "\n", "b", ":=", "[", "1", "]", "\n", "c", ":=", "{", "\"j\"", ":", "2", "}"},
 }
 
 // VerifC07Mutations: a valid base program with MUT positions replaced by an arbitrary token of the table,
